@@ -92,7 +92,7 @@ class Outcome:
         for m in rep.get("inconclusive", []):
             self.inconclusive.append("%s: %s" % (rep.get("check"), m))
         for k, v in rep.get("counters", {}).items():
-            self.counters[k] = self.counters.get(k, 0) + v
+            self.counters[k] = max(self.counters.get(k, 0), v) if k.startswith("max_") else self.counters.get(k, 0) + v
         for k, v in rep.get("notes", {}).items():
             self.notes[rep.get("check", "") + "." + k if k in self.notes else k] = v
 
@@ -305,7 +305,7 @@ def main():
                 cur["count"] += v["count"]
             out.inconclusive += o.inconclusive
             for k, v in o.counters.items():
-                out.counters[k] = out.counters.get(k, 0) + v
+                out.counters[k] = max(out.counters.get(k, 0), v) if k.startswith("max_") else out.counters.get(k, 0) + v
             out.notes.update(o.notes)
             out.units += o.units
     rc = finish(out, cfg, tier, seed, t0)
